@@ -1106,7 +1106,9 @@ def check_C04(ctx):
                  CONT_DEPS | {"ContainerFlush.v", "ContainerOut.v", "Term.v", "Vt.v", "VtProofs.v", "GenChecks.v", "gen/GenApi.v", "Props/C04.v"})
     if ctx.harness:
         pty_check(ctx)
-        opt_check(ctx, {"spinner"})   # each frame fits in columns: spinner fillers with frames of unequal width
+        # each frame fits in columns (spinner fillers with frames of unequal width); a container that was not asked to refresh draws
+        # nothing on an output that is not a terminal
+        opt_check(ctx, {"spinner", "norefresh"})
 
 
 def pty_check(ctx):
